@@ -30,6 +30,8 @@ def parseEv (s : String) : Option Ev :=
   | 'A' :: r => (nat3 (String.ofList r)).map fun (i, p, x) => .append i p x
   | 'E' :: r => (natRes (String.ofList r)).map fun (i, c) => .ended i c
   | 'P' :: r => (nat2 (String.ofList r)).map fun (i, p) => .produceReq i p
+  | 'K' :: r => (nat2 (String.ofList r)).map fun (i, p) => .regAck i p
+  | 'D' :: r => (nat2 (String.ofList r)).map fun (i, p) => .produceSend i p
   | 'Q' :: r => (natRes (String.ofList r)).map fun (i, c) => .endReq i c
   | 'b' :: r => (String.ofList r).toNat?.map .begin
   | 'a' :: 'o' :: r => (String.ofList r).toNat?.map .abortOk
